@@ -110,7 +110,7 @@ def profile(draw, allow_zero=False, max_n=60):
         if not p.any():
             p[0] = 1e-15
     w = rng.uniform(1, 60, size=N)
-    L = draw(st.integers(1, N - 1))
+    L = draw(st.integers(1, N))                                # "any target layer count": as many layers as the input has is one
     wdt = draw(st.sampled_from(["float64", "float64", "float32", "int64", "int32"]))
     if wdt.startswith("int"):
         w = np.maximum(np.round(w), 1).astype(wdt)            # whole-m/s wind tables are valid input
@@ -272,7 +272,10 @@ def gctm_cases(draw):
         forced = [rng.uniform(edges[i] + 1e-3 * hi, edges[i + 1] - 1e-3 * hi) for i in range(L)]
         h = np.sort(np.concatenate([forced, rng.uniform(0, hi, size=max(0, N - L - 2)), [0.0, hi]]))
     p = np.exp(rng.uniform(math.log(5e-16), math.log(5e-14), size=len(h)))
-    return {"h": h, "p": p, "L": L, "kind": kind}
+    # the same profile in other units (heights in km, strengths as fractions or in units of 1e-13), with the scaling
+    # keywords set to match: h_scaling / cn2_scaling exist for exactly that
+    units = draw(st.sampled_from([None, None, "km", "fraction", "km+fraction", "1e-13"]))
+    return {"h": h, "p": p, "L": L, "kind": kind, "units": units}
 
 
 def gctm_body(ctx, case):
@@ -280,9 +283,18 @@ def gctm_body(ctx, case):
     h, p, L = case["h"], case["p"], case["L"]
     ctx.case(case, nontrivial=case["kind"] == "irregular" or L >= 3, classes=[case["kind"], "L%d" % L])
     h0, p0 = h.copy(), p.copy()
+    units = case.get("units")
+    ua = 1e-3 if units and "km" in units else 1.0
+    ub = (1.0 / float(np.sum(p)) if units and "fraction" in units else 1e13 if units == "1e-13" else 1.0)
     with warnings.catch_warnings():
         warnings.simplefilter("ignore")
-        hl, cl = pc.GCTM(h, p, L)
+        if units:
+            ctx.classes["units_" + units] += 1
+            hu, pu = h * ua, p * ub
+            hl, cl = pc.GCTM(hu, pu, L, h_scaling=10000.0 * ua, cn2_scaling=100e-15 * ub)
+            hl, cl = np.asarray(hl) / ua, np.asarray(cl) / ub
+        else:
+            hl, cl = pc.GCTM(h, p, L)
         gh, gc = pc.equivalent_layers(h, p, L)
     ctx.equal(h, h0, "GCTM modified h")
     ctx.equal(p, p0, "GCTM modified p")
